@@ -18,6 +18,7 @@ import (
 
 // lockDB caches lock-set analyses of function nodes.
 type lockDB struct {
+	held  *heldDB
 	m     *model.Model
 	cache map[ast.Node]*lockset.Result
 }
@@ -258,7 +259,11 @@ func fieldAccessesOf(db *lockDB, p *packages.Package, typeName string) []fieldAc
 			fn := innermostFunc(db.m, p, sel)
 			res := results[fn]
 			if res == nil {
-				res = db.analyze(p, fn, nil)
+				// a nested literal: what its call site (synchronous higher-order call, lock wrapper, closure calls) holds
+				if db.held == nil {
+					db.held = newHeldDB(db.m)
+				}
+				res = db.analyze(p, fn, db.held.entryOf(p, fn))
 				results[fn] = res
 			}
 			held, _ := res.At(sel)
@@ -470,6 +475,15 @@ func (h *heldDB) entryOf(p *packages.Package, fn ast.Node) lockset.Set {
 				if _, isGo := h.m.Parent(p, pp).(*ast.GoStmt); !isGo {
 					e = h.heldAt(p, pp)
 				}
+			} else if _, isGo := h.m.Parent(p, pp).(*ast.GoStmt); !isGo {
+				// argument of a lock wrapper of the repository (`withLock(func() { ... })`): the literal runs with
+				// what the wrapper holds where it calls its parameter, on top of what the call site holds
+				if extra, ok := h.wrapperHolds(p, pp, x); ok {
+					e = h.heldAt(p, pp).Clone()
+					for k := range extra {
+						e[k] = true
+					}
+				}
 			}
 		case *ast.AssignStmt, *ast.ValueSpec:
 			var holder types.Object
@@ -561,3 +575,110 @@ func lockResult(p *packages.Package, fn ast.Node) *lockset.Result {
 }
 
 func lockShort(k string) string { return lockset.Short(k) }
+
+// wrapperHolds: lit is an argument of call, whose callee is a local closure or a function / method of the repository
+// that does nothing with the corresponding parameter but call it, synchronously. Returns the locks the callee holds at
+// every such call, expressed in the caller's naming.
+func (h *heldDB) wrapperHolds(p *packages.Package, call *ast.CallExpr, lit *ast.FuncLit) (lockset.Set, bool) {
+	info := p.TypesInfo
+	idx := -1
+	for i, a := range call.Args {
+		if ast.Unparen(a) == ast.Expr(lit) {
+			idx = i
+		}
+	}
+	if idx < 0 {
+		return nil, false
+	}
+	// the wrapper: its function node, its package, its parameter list
+	var wfn ast.Node
+	var wtype *ast.FuncType
+	wp := p
+	var wrecv *types.Var
+	if cl := model.Callee(info, call); cl != nil {
+		if d := h.m.Decls[cl]; d != nil && d.Decl != nil && d.Decl.Body != nil {
+			wfn, wtype, wp = d.Decl, d.Decl.Type, d.Pkg
+			wrecv = recvObj(d.Pkg.TypesInfo, d.Decl)
+		}
+	} else if id, ok := ast.Unparen(call.Fun).(*ast.Ident); ok {
+		if o := objOf(info, id); o != nil {
+			defs := h.m.Defs[o]
+			if len(defs) == 1 && defs[0].Expr != nil {
+				if l, ok := ast.Unparen(defs[0].Expr).(*ast.FuncLit); ok {
+					wfn, wtype = l, l.Type
+				}
+			}
+		}
+	}
+	if wfn == nil || wtype.Params == nil {
+		return nil, false
+	}
+	params := model.FlattenParams(wp.TypesInfo, wtype.Params)
+	if idx >= len(params) || params[idx] == nil {
+		return nil, false
+	}
+	param := params[idx]
+	if _, isSig := param.Type().Underlying().(*types.Signature); !isSig {
+		return nil, false
+	}
+	// every use of the parameter is a direct, synchronous call in the wrapper's own body
+	var common lockset.Set
+	ok := true
+	calls := 0
+	body := funcBody(wfn)
+	ast.Inspect(body, func(n ast.Node) bool {
+		id, isID := n.(*ast.Ident)
+		if !isID || wp.TypesInfo.Uses[id] != types.Object(param) {
+			return true
+		}
+		c2, isCall := h.m.Parent(wp, id).(*ast.CallExpr)
+		if !isCall || ast.Unparen(c2.Fun) != ast.Expr(id) || innermostFunc(h.m, wp, c2) != wfn {
+			ok = false
+			return true
+		}
+		if _, isGo := h.m.Parent(wp, c2).(*ast.GoStmt); isGo {
+			ok = false
+			return true
+		}
+		if _, isDefer := h.m.Parent(wp, c2).(*ast.DeferStmt); isDefer {
+			ok = false
+			return true
+		}
+		calls++
+		held := h.heldAt(wp, c2)
+		if common == nil {
+			common = held.Clone()
+		} else {
+			for k := range common {
+				if !held[k] {
+					delete(common, k)
+				}
+			}
+		}
+		return true
+	})
+	if !ok || calls == 0 || common == nil {
+		return nil, false
+	}
+	// receiver-rooted keys of a method wrapper are renamed to the receiver the caller calls it on
+	out := lockset.Set{}
+	var callerRecv *types.Var
+	if wrecv != nil {
+		if sel, isSel := ast.Unparen(call.Fun).(*ast.SelectorExpr); isSel {
+			if id, isID := ast.Unparen(sel.X).(*ast.Ident); isID {
+				callerRecv, _ = objOf(info, id).(*types.Var)
+			}
+		}
+	}
+	for k := range common {
+		nk := normKey(k, wrecv)
+		if strings.HasPrefix(nk, "recv") && wrecv != nil {
+			if callerRecv == nil {
+				continue
+			}
+			nk = fmt.Sprintf("%s@%d%s", callerRecv.Name(), callerRecv.Pos(), nk[len("recv"):])
+		}
+		out[nk] = true
+	}
+	return out, true
+}
